@@ -139,6 +139,50 @@ example : (endBlock (updateParamsHandler false 7 { store := 1, cacheParams := 0,
 example : (endBlock (createPriceHandler false false 2 5 { store := 1, cacheParams := 0, cacheDirty := false, cacheMsgs := [], updatedFeeders := [] })).store = 38 := by
   decide
 
+/-! ## loop-carried state of the map ranges
+
+`Gen.mapRangeCarriedState` lists, for every `range` over a map, the variables declared outside the loop
+that its body assigns. Everything a schedule can influence flows through these; each entry is paired
+here with the reason it is order independent (the shape theorem it instantiates). A variable hoisted
+out of a loop, or a conditional first-writer-wins assignment (`if x == "" { x = … }`), adds a plain
+`assign` entry and breaks `C08_loop_carried_state_reviewed` until it is justified. -/
+def carriedReview : List (String × String) := [
+  ("x/assets/keeper/client_chain_asset.go:Keeper.GetAssetsDecimal:assets|decimals|index", "write keyed by the loop key (shape B)"),
+  ("x/assets/keeper/staker_asset.go:Keeper.GetStakerSpecifiedAssetInfo:delegationInfoRecords.DelegationInfos|info|sum", "accumulating sum (shape A)"),
+  ("x/avs/keeper/task.go:Keeper.GroupTasksByIDAndAddress:taskMap|taskMap|index", "write keyed by the loop key (shape B)"),
+  ("x/avs/types/types.go:Difference:diffMap|different|append", "collected slice, sorted or consumed key-wise afterwards (shape C / C′ / F)"),
+  ("x/evm/keeper/precompiles.go:Keeper.GetAvailablePrecompileAddrs:k.precompiles|addresses|index", "write keyed by the loop key (shape B)"),
+  ("x/evm/keeper/precompiles.go:Keeper.GetAvailablePrecompileAddrs:k.precompiles|i|incdec", "slot counter of a collected slice that is sorted afterwards (shape C)"),
+  ("x/feedistribution/keeper/allocation.go:Keeper.AllocateTokensToStakers:avsAssets|curTotalStakersPowers|sum", "accumulating sum (shape A)"),
+  ("x/feedistribution/keeper/allocation.go:Keeper.AllocateTokensToStakers:avsAssets|globalStakerAddressList|append", "collected slice, sorted or consumed key-wise afterwards (shape C / C′ / F)"),
+  ("x/feedistribution/keeper/allocation.go:Keeper.AllocateTokensToStakers:avsAssets|stakersPowerMap|index", "write keyed by the loop key (shape B)"),
+  ("x/operator/types/expected_keepers.go:MockOracle.GetMultipleAssetsPrices:assets|ret|index", "write keyed by the loop key (shape B)"),
+  ("x/oracle/keeper/aggregator/aggregator.go:aggregator.copy4CheckTx:agg.dsPrices|ret|index", "write keyed by the loop key (shape B)"),
+  ("x/oracle/keeper/aggregator/aggregator.go:aggregator.copy4CheckTx:report.prices|rTmp|index", "write keyed by the loop key (shape B)"),
+  ("x/oracle/keeper/aggregator/aggregator.go:reportPrice.aggregate:r.prices|tmp|append", "collected slice, sorted or consumed key-wise afterwards (shape C / C′ / F)"),
+  ("x/oracle/keeper/aggregator/calculator.go:calculator.copy4CheckTx:c.deterministicSource|ret|index", "write keyed by the loop key (shape B)"),
+  ("x/oracle/keeper/aggregator/context.go:AggregatorContext.Copy4CheckTx:agc.rounds|ret|index", "write keyed by the loop key (shape B)"),
+  ("x/oracle/keeper/aggregator/context.go:AggregatorContext.GetValidators:agc.validatorsPower|validators|append", "collected slice, sorted or consumed key-wise afterwards (shape C / C′ / F)"),
+  ("x/oracle/keeper/aggregator/context.go:AggregatorContext.SealRound:agc.rounds|agc|delete", "delete keyed by the loop key (shape B)"),
+  ("x/oracle/keeper/aggregator/context.go:AggregatorContext.SealRound:agc.rounds|failed|append", "collected slice, sorted or consumed key-wise afterwards (shape C / C′ / F)"),
+  ("x/oracle/keeper/aggregator/context.go:AggregatorContext.SealRound:agc.rounds|sealed|append", "collected slice, sorted or consumed key-wise afterwards (shape C / C′ / F)"),
+  ("x/oracle/keeper/aggregator/context.go:AggregatorContext.SetValidatorPowers:vp|agc|field", "per-key write into agc.validatorsPower and total power sum (shapes B, A)"),
+  ("x/oracle/keeper/aggregator/context.go:AggregatorContext.SetValidatorPowers:vp|agc|index", "per-key write into agc.validatorsPower and total power sum (shapes B, A)"),
+  ("x/oracle/keeper/aggregator/filter.go:filter.copy4CheckTx:f.validatorNonce|ret|index", "write keyed by the loop key (shape B)"),
+  ("x/oracle/keeper/aggregator/filter.go:filter.copy4CheckTx:f.validatorSource|ret|index", "write keyed by the loop key (shape B)"),
+  ("x/oracle/keeper/cache/caches.go:Cache.GetCache:c.validators.validators|item|index", "write keyed by the loop key (shape B)"),
+  ("x/oracle/keeper/cache/caches.go:cacheValidator.add:validators|c|delete", "delete keyed by the loop key (shape B)"),
+  ("x/oracle/keeper/cache/caches.go:cacheValidator.add:validators|c|field", "sticky update flag (only ever set to true) and per-key power (shape B)"),
+  ("x/oracle/keeper/cache/caches.go:cacheValidator.add:validators|c|index", "write keyed by the loop key (shape B)"),
+  ("x/oracle/keeper/prices.go:Keeper.GetMultipleAssetsPrices:assets|err|assign", "first-error flag: callers only test err != nil / its sentinel (shape D)"),
+  ("x/oracle/keeper/prices.go:Keeper.GetMultipleAssetsPrices:assets|info|op+", "text of the error message only (asset ids in iteration order); never reaches state, a result code or gas"),
+  ("x/oracle/keeper/prices.go:Keeper.GetMultipleAssetsPrices:assets|prices|assign", "result map set to nil on the first error (shape D); otherwise keyed writes (shape B)"),
+  ("x/oracle/keeper/prices.go:Keeper.GetMultipleAssetsPrices:assets|prices|index", "result map set to nil on the first error (shape D); otherwise keyed writes (shape B)"),
+  ("x/oracle/keeper/single.go:recacheAggregatorContext:recentParamsMap#2|prev|assign", "running maximum of the keys (shape E)"),
+  ("x/oracle/keeper/single.go:recacheAggregatorContext:recentParamsMap#2|recentParamsMap|delete", "delete keyed by the loop key (shape B)"),
+  ("x/oracle/keeper/single.go:recacheAggregatorContext:recentParamsMap#3|prev|assign", "running maximum of the keys (shape E)"),
+  ("x/oracle/keeper/single.go:recacheAggregatorContext:recentParamsMap|prev|assign", "running maximum of the keys (shape E)")]
+
 /-! ## site ↔ shape table -/
 
 /-- every registered map-range site with the shape of its loop body -/
